@@ -32,13 +32,17 @@ pub(crate) trait Event {
 
 static TOKEN_FD: Lazy<DashMap<u64, c_int>> = Lazy::new(DashMap::new);
 
-static READABLE_RECORDS: Lazy<DashSet<c_int>> = Lazy::new(DashSet::new);
+// Every selector has its own OS poller, so what is registered where is recorded per
+// selector: the keys are (selector, fd).
+type Key = (usize, c_int);
 
-static READABLE_TOKEN_RECORDS: Lazy<DashMap<c_int, u64>> = Lazy::new(DashMap::new);
+static READABLE_RECORDS: Lazy<DashSet<Key>> = Lazy::new(DashSet::new);
 
-static WRITABLE_RECORDS: Lazy<DashSet<c_int>> = Lazy::new(DashSet::new);
+static READABLE_TOKEN_RECORDS: Lazy<DashMap<Key, u64>> = Lazy::new(DashMap::new);
 
-static WRITABLE_TOKEN_RECORDS: Lazy<DashMap<c_int, u64>> = Lazy::new(DashMap::new);
+static WRITABLE_RECORDS: Lazy<DashSet<Key>> = Lazy::new(DashSet::new);
+
+static WRITABLE_TOKEN_RECORDS: Lazy<DashMap<Key, u64>> = Lazy::new(DashMap::new);
 
 /// Events abstraction.
 pub(crate) trait EventIterator<E: Event> {
@@ -50,6 +54,11 @@ pub(crate) trait EventIterator<E: Event> {
 
 /// Event driven abstraction.
 pub(crate) trait Selector<I: Interest, E: Event, S: EventIterator<E>> {
+    /// identifies this selector in the interest records
+    fn id(&self) -> usize {
+        std::ptr::from_ref(self).cast::<u8>() as usize
+    }
+
     /// # Errors
     /// if poll failed.
     fn select(&self, events: &mut S, timeout: Option<Duration>) -> std::io::Result<()> {
@@ -67,10 +76,10 @@ pub(crate) trait Selector<I: Interest, E: Event, S: EventIterator<E>> {
             let token = event.get_token();
             let fd = TOKEN_FD.remove(&token).map_or(0, |r| r.1);
             if event.readable() {
-                _ = READABLE_TOKEN_RECORDS.remove(&fd);
+                _ = READABLE_TOKEN_RECORDS.remove(&(self.id(), fd));
             }
             if event.writable() {
-                _ = WRITABLE_TOKEN_RECORDS.remove(&fd);
+                _ = WRITABLE_TOKEN_RECORDS.remove(&(self.id(), fd));
             }
         }
         result
@@ -79,10 +88,22 @@ pub(crate) trait Selector<I: Interest, E: Event, S: EventIterator<E>> {
     /// # Errors
     /// if add failed.
     fn add_read_event(&self, fd: c_int, token: u64) -> std::io::Result<()> {
-        if READABLE_RECORDS.contains(&fd) {
+        let key = (self.id(), fd);
+        if READABLE_RECORDS.contains(&key) {
+            if READABLE_TOKEN_RECORDS.get(&key).map(|r| *r.value()) != Some(token) {
+                // registered for another waiter (or its event was consumed): the
+                // registration must carry the token of the coroutine that waits now
+                let interests = if WRITABLE_RECORDS.contains(&key) {
+                    I::read_and_write(token)
+                } else {
+                    I::read(token)
+                };
+                self.reregister(fd, token, interests)?;
+                _ = READABLE_TOKEN_RECORDS.insert(key, token);
+            }
             return Ok(());
         }
-        if WRITABLE_RECORDS.contains(&fd) {
+        if WRITABLE_RECORDS.contains(&key) {
             //同时对读写事件感兴趣
             let interests = I::read_and_write(token);
             self.reregister(fd, token, interests)
@@ -90,18 +111,29 @@ pub(crate) trait Selector<I: Interest, E: Event, S: EventIterator<E>> {
         } else {
             self.register(fd, token, I::read(token))
         }?;
-        _ = READABLE_RECORDS.insert(fd);
-        _ = READABLE_TOKEN_RECORDS.insert(fd, token);
+        _ = READABLE_RECORDS.insert(key);
+        _ = READABLE_TOKEN_RECORDS.insert(key, token);
         Ok(())
     }
 
     /// # Errors
     /// if add failed.
     fn add_write_event(&self, fd: c_int, token: u64) -> std::io::Result<()> {
-        if WRITABLE_RECORDS.contains(&fd) {
+        let key = (self.id(), fd);
+        if WRITABLE_RECORDS.contains(&key) {
+            if WRITABLE_TOKEN_RECORDS.get(&key).map(|r| *r.value()) != Some(token) {
+                // see add_read_event
+                let interests = if READABLE_RECORDS.contains(&key) {
+                    I::read_and_write(token)
+                } else {
+                    I::write(token)
+                };
+                self.reregister(fd, token, interests)?;
+                _ = WRITABLE_TOKEN_RECORDS.insert(key, token);
+            }
             return Ok(());
         }
-        if READABLE_RECORDS.contains(&fd) {
+        if READABLE_RECORDS.contains(&key) {
             //同时对读写事件感兴趣
             let interests = I::read_and_write(token);
             self.reregister(fd, token, interests)
@@ -109,22 +141,23 @@ pub(crate) trait Selector<I: Interest, E: Event, S: EventIterator<E>> {
         } else {
             self.register(fd, token, I::write(token))
         }?;
-        _ = WRITABLE_RECORDS.insert(fd);
-        _ = WRITABLE_TOKEN_RECORDS.insert(fd, token);
+        _ = WRITABLE_RECORDS.insert(key);
+        _ = WRITABLE_TOKEN_RECORDS.insert(key, token);
         Ok(())
     }
 
     /// # Errors
     /// if delete failed.
     fn del_event(&self, fd: c_int) -> std::io::Result<()> {
-        if READABLE_RECORDS.contains(&fd) || WRITABLE_RECORDS.contains(&fd) {
+        let key = (self.id(), fd);
+        if READABLE_RECORDS.contains(&key) || WRITABLE_RECORDS.contains(&key) {
             let token = READABLE_TOKEN_RECORDS
-                .remove(&fd)
-                .or(WRITABLE_TOKEN_RECORDS.remove(&fd))
+                .remove(&key)
+                .or(WRITABLE_TOKEN_RECORDS.remove(&key))
                 .map_or(0, |r| r.1);
             self.deregister(fd, token)?;
-            _ = READABLE_RECORDS.remove(&fd);
-            _ = WRITABLE_RECORDS.remove(&fd);
+            _ = READABLE_RECORDS.remove(&key);
+            _ = WRITABLE_RECORDS.remove(&key);
         }
         Ok(())
     }
@@ -135,16 +168,17 @@ pub(crate) trait Selector<I: Interest, E: Event, S: EventIterator<E>> {
     /// # Panics
     /// if clean failed.
     fn del_read_event(&self, fd: c_int) -> std::io::Result<()> {
-        if READABLE_RECORDS.contains(&fd) {
-            if WRITABLE_RECORDS.contains(&fd) {
+        let key = (self.id(), fd);
+        if READABLE_RECORDS.contains(&key) {
+            if WRITABLE_RECORDS.contains(&key) {
                 //写事件不能删
-                let token = WRITABLE_TOKEN_RECORDS.get(&fd).map_or(0, |r| *r.value());
+                let token = WRITABLE_TOKEN_RECORDS.get(&key).map_or(0, |r| *r.value());
                 self.reregister(fd, token, I::write(token))?;
                 assert!(
-                    READABLE_RECORDS.remove(&fd).is_some(),
+                    READABLE_RECORDS.remove(&key).is_some(),
                     "Clean READABLE_RECORDS failed !"
                 );
-                _ = READABLE_TOKEN_RECORDS.remove(&fd);
+                _ = READABLE_TOKEN_RECORDS.remove(&key);
             } else {
                 self.del_event(fd)?;
             }
@@ -158,16 +192,17 @@ pub(crate) trait Selector<I: Interest, E: Event, S: EventIterator<E>> {
     /// # Panics
     /// if clean failed.
     fn del_write_event(&self, fd: c_int) -> std::io::Result<()> {
-        if WRITABLE_RECORDS.contains(&fd) {
-            if READABLE_RECORDS.contains(&fd) {
+        let key = (self.id(), fd);
+        if WRITABLE_RECORDS.contains(&key) {
+            if READABLE_RECORDS.contains(&key) {
                 //读事件不能删
-                let token = READABLE_TOKEN_RECORDS.get(&fd).map_or(0, |r| *r.value());
+                let token = READABLE_TOKEN_RECORDS.get(&key).map_or(0, |r| *r.value());
                 self.reregister(fd, token, I::read(token))?;
                 assert!(
-                    WRITABLE_RECORDS.remove(&fd).is_some(),
+                    WRITABLE_RECORDS.remove(&key).is_some(),
                     "Clean WRITABLE_RECORDS failed !"
                 );
-                _ = WRITABLE_TOKEN_RECORDS.remove(&fd);
+                _ = WRITABLE_TOKEN_RECORDS.remove(&key);
             } else {
                 self.del_event(fd)?;
             }
